@@ -230,3 +230,9 @@ Definition encode (limit : nat) (m : msg) : outcome :=
   | Ok st => OBytes (buf st)
   | Err e _ => OErr e
   end.
+
+(* MessageResponse::encode's limit: UDP = payload of the RESPONSE edns (Catalog sets it to
+   max(512, advertised)) or 512 without EDNS; anything else 65535 *)
+Definition server_limit (tcp : bool) (advertised : option N) : N :=
+  if tcp then 65535
+  else match advertised with Some p => N.max p 512 | None => 512 end.
